@@ -39,10 +39,17 @@ Proof.
   - destruct n; [exact Ht | apply IH].
 Qed.
 
+Lemma filter_idem : forall (A : Type) (f : A -> bool) (l : list A), filter f (filter f l) = filter f l.
+Proof.
+  intros A f l. induction l as [| a l IH]; simpl; [reflexivity |].
+  destruct (f a) eqn:E; simpl; [rewrite E, IH |]; auto.
+Qed.
+
 Lemma norm_sound : forall D fuel t r ks, run D fuel (norm t) r ks = run D fuel t r ks.
 Proof.
   intros D fuel t. induction t as [l | c t1 t2 IH1 IH2 | s k IHk | ts IH | m] using dtree_ind'; intros r ks.
-  - reflexivity.
+  - destruct l as [g lo p | | | |]; try reflexivity.
+    cbn [norm run]. unfold clean_glob, clean_loc. rewrite !filter_idem. reflexivity.
   - cbn [norm]. destruct (lit_bool c) as [[|]|] eqn:Hc.
     + rewrite IH1. cbn [run]. rewrite (lit_bool_eval D fuel r c true Hc). reflexivity.
     + rewrite IH2. cbn [run]. rewrite (lit_bool_eval D fuel r c false Hc). reflexivity.
